@@ -692,6 +692,12 @@ def check_reported(sess, S):
     except TimeoutError:
         return "reading value / error does not return (strategy {}, confidence {})".format(
             sess.ev.settings.strategy, sess.ev.settings.confidence)
+    except ValueError as ex:
+        if "Too many bins" in str(ex):
+            # a sample set only a few ulps wide (e.g. 2^30 + tiny spread): 100 equal-width bins do not exist in double
+            # precision, numpy refuses; outside what the property can mean by "100 equal-width histogram bins"
+            return None
+        raise
     same = lambda a, b: (mc.num_obs(a) == mc.num_obs(b))
     if not (same(v1, v2) and same(e1, e2)):
         return "repeated reads differ: ({}, {}) then ({}, {})".format(v1, e1, v2, e2)
@@ -720,7 +726,10 @@ def check_reported(sess, S):
         return None
     # mode: numpy's own histogram of the retrieved samples, brute force over k
     arr = np.array([float(x) for x in S], dtype=float)
-    n, bins = np.histogram(arr, bins=100)
+    try:
+        n, bins = np.histogram(arr, bins=100)
+    except ValueError:
+        return None
     n = [int(c) for c in n]
     cf = as_fraction(conf)
     if not mc.threshold_agrees(conf, cf, sum(n)):
